@@ -145,19 +145,8 @@ def run(repo, res):
     from .. import api_model
     api_model.apply(res, api_model.lint_model(repo), {'producers': 'C01-R6', 'lookup': 'C01-R6'}, LINTER, lint.lineno)
     assist = repo.module_func(ASSIST, 'assist')
-    ex2 = Expander(assist)
-    ok = False
-    for n in ast.walk(assist):
-        if isinstance(n, ast.Assign) and unparse(n.targets[0]) == 'names' and 'names_at' in unparse(n.value):
-            txt = ex2.text(n.value)
-            ok = 'get_marked_name(' in txt and '.flow.names_at(position)' in txt
-    rets = [n for n in ast.walk(assist) if isinstance(n, ast.Return)]
-    ok = ok and any(isinstance(r.value, ast.Tuple) and len(r.value.elts) == 2
-                    and 'sorted(' in unparse(r.value.elts[1]) and 'names' in {n.id for n in ast.walk(r.value.elts[1])
-                                                                              if isinstance(n, ast.Name)}
-                    for r in rets if r.value is not None)
-    res.check('C01-R6', 'assist name branch', ok, ASSIST, assist.lineno,
-              "assist's name branch must propose the keys of names_at(position) of the marked read's region")
+    api_model.apply(res, [r for r in api_model.assist_model(repo) if 'name branch' in r[1]], {'source': 'C01-R6'}, ASSIST,
+                    assist.lineno)
     res.assumptions.extend([
         'CPython ast node classes/fields as published in their __doc__ (grammar table)',
         'T1/T2 reference tables (sa/pyref.py) transcribe the language reference correctly',
